@@ -603,7 +603,7 @@ func runC10(args []string) int {
 	r.Extra["corpus_valid_frames_lockstep"] = len(corpusSmall)
 	r.Extra["corpus_valid_frames_impl_only"] = len(corpusBig)
 	if len(pool) == 0 {
-		r.corrFail("generator", "no generated file is accepted by Decode", nil)
+		r.specFail("valid_rejected", "Decode accepts none of the generated valid files (one read): the inputs of this check cannot be built", nil)
 		return r.finish()
 	}
 
